@@ -7,6 +7,7 @@ import (
 	"go/types"
 	"sort"
 	"strings"
+	"time"
 
 	"golang.org/x/tools/go/ssa"
 
@@ -733,6 +734,7 @@ type Spec struct {
 
 // Engine holds the analysis context.
 type Engine struct {
+	subBase   map[*ssa.Function]map[ssa.Value]ssa.Value
 	W         *core.World
 	Inline    map[*ssa.Function]bool
 	Machines  map[*ssa.Function]string // summarised machines: callee -> name
@@ -772,15 +774,15 @@ func (e *Engine) problem(pos token.Pos, key, format string, a ...interface{}) {
 
 // leaf of the exploration from one boundary configuration.
 type leaf struct {
-	kind   string // "return", "advance", "machine", "undecided"
-	cfg    *Config
-	res    []Val
-	next   *Config // advance
-	okCfg  *Config // machine
-	failC  *Config
-	mach   string
-	pos    token.Pos
-	msg    string
+	kind  string // "return", "advance", "machine", "undecided"
+	cfg   *Config
+	res   []Val
+	next  *Config // advance
+	okCfg *Config // machine
+	failC *Config
+	mach  string
+	pos   token.Pos
+	msg   string
 }
 
 // Result of analysing one function.
@@ -829,7 +831,12 @@ func (e *Engine) Analyse(spec *Spec) *Result {
 		return id
 	}
 	l.Start = idOf(c0)
+	began := time.Now()
 	for i := 0; i < len(cfgs); i++ {
+		if time.Since(began) > 90*time.Second {
+			e.problem(fn.Pos(), fn.Name(), "abstract exploration exceeded its time budget (90s, %d states so far): the function is outside the scanner domain", len(cfgs))
+			break
+		}
 		if len(cfgs) > e.MaxStates {
 			e.problem(fn.Pos(), fn.Name(), "more than %d abstract states: the function is outside the scanner domain", e.MaxStates)
 			break
